@@ -294,7 +294,9 @@ Definition opt_N_eqb (a b : option N) : bool :=
 (* WAL records: one frame + commit marker per lifecycle transaction *)
 Inductive body := BRequest (r : request) | BClaim (c : claim) | BSettle (s : settle).
 Record txrec := { tx_lsn : N; tx_body : body; tx_before : N; tx_after : N }.
-Record store := { sto_committed : list txrec; sto_tail : list txrec }.
+(* [sto_base] identifies the WAL chain: the commit digest of the n-th committed transaction of
+   this store is represented by sto_base + n, so commits of different stores never coincide *)
+Record store := { sto_base : N; sto_committed : list txrec; sto_tail : list txrec }.
 
 Inductive fault := NoFault | FailAppend | FailFlush | FailAfterSync.
 
@@ -303,7 +305,7 @@ Record coordinator := { co_index : index; co_next_lsn : N; co_ready : bool }.
 Record sys := { sy_store : store; sy_coord : coordinator }.
 
 Definition empty_index : index := {| ix_entries := []; ix_nodes := [] |}.
-Definition empty_store : store := {| sto_committed := []; sto_tail := [] |}.
+Definition empty_store (base : N) : store := {| sto_base := base; sto_committed := []; sto_tail := [] |}.
 
 Section WithHash.
   Variable H : bytes -> N.
@@ -584,9 +586,9 @@ Section WithHash.
 
   Definition observe (l : list txrec) : result index := observe_from empty_index l.
 
-  Definition continuation (l : list txrec) : N :=
+  Definition continuation (base : N) (l : list txrec) : N :=
     match rev l with
-    | [] => 0
+    | [] => base
     | t :: _ => tx_lsn t + 1
     end.
 
@@ -597,12 +599,13 @@ Section WithHash.
     | [] =>
         match observe (sto_committed s) with
         | Err e => Err e
-        | Ok idx => Ok {| co_index := idx; co_next_lsn := continuation (sto_committed s); co_ready := true |}
+        | Ok idx => Ok {| co_index := idx; co_next_lsn := continuation (sto_base s) (sto_committed s); co_ready := true |}
         end
     end.
 
   (* ordinary WAL recovery in writable mode: drop the uncommitted tail *)
-  Definition truncate (s : store) : store := {| sto_committed := sto_committed s; sto_tail := [] |}.
+  Definition truncate (s : store) : store :=
+    {| sto_base := sto_base s; sto_committed := sto_committed s; sto_tail := [] |}.
 
   (* ---------------------------------------------------------------- live transitions *)
   Definition unready (c : coordinator) : coordinator :=
@@ -615,11 +618,11 @@ Section WithHash.
     match f with
     | FailAppend => (sto, unready co, Err WalStoreErr)
     | FailFlush =>
-        ({| sto_committed := sto_committed sto; sto_tail := sto_tail sto ++ [t] |}, unready co, Err WalStoreErr)
+        ({| sto_base := sto_base sto; sto_committed := sto_committed sto; sto_tail := sto_tail sto ++ [t] |}, unready co, Err WalStoreErr)
     | FailAfterSync =>
-        ({| sto_committed := sto_committed sto ++ [t]; sto_tail := sto_tail sto |}, unready co, Err WalStoreErr)
+        ({| sto_base := sto_base sto; sto_committed := sto_committed sto ++ [t]; sto_tail := sto_tail sto |}, unready co, Err WalStoreErr)
     | NoFault =>
-        ({| sto_committed := sto_committed sto ++ [t]; sto_tail := sto_tail sto |},
+        ({| sto_base := sto_base sto; sto_committed := sto_committed sto ++ [t]; sto_tail := sto_tail sto |},
          {| co_index := co_index co; co_next_lsn := co_next_lsn co + 1; co_ready := true |},
          Ok (co_next_lsn co))
     end.
@@ -817,9 +820,9 @@ Section WithHash.
     | OTruncate => ({| sy_store := truncate (sy_store s); sy_coord := sy_coord s |}, OutRecovered)
     end.
 
-  Definition init_sys : sys :=
-    {| sy_store := empty_store;
-       sy_coord := {| co_index := empty_index; co_next_lsn := 0; co_ready := true |} |}.
+  Definition init_sys (base : N) : sys :=
+    {| sy_store := empty_store base;
+       sy_coord := {| co_index := empty_index; co_next_lsn := base; co_ready := true |} |}.
 
   (* run with the trace of (operation, output) pairs, oldest first *)
   Fixpoint run_from (s : sys) (ops : list op) : sys * list (op * out) :=
@@ -830,7 +833,7 @@ Section WithHash.
         let '(s'', tr) := run_from s' ops' in
         (s'', (o, r) :: tr)
     end.
-  Definition run (ops : list op) : sys * list (op * out) := run_from init_sys ops.
+  Definition run (ops : list op) : sys * list (op * out) := run_from (init_sys 0) ops.
   Definition state_after (ops : list op) : sys := fst (run ops).
   Definition trace_of (ops : list op) : list (op * out) := snd (run ops).
 
@@ -926,7 +929,7 @@ Section WithHash.
     cs_cands : list settle }.
 
   Definition init_cstate : cstate :=
-    {| cs_a := init_sys; cs_b := init_sys; cs_reqs := []; cs_auths := []; cs_tokens := []; cs_grants := []; cs_cands := [] |}.
+    {| cs_a := init_sys 0; cs_b := init_sys 4294967296; cs_reqs := []; cs_auths := []; cs_tokens := []; cs_grants := []; cs_cands := [] |}.
 
   Inductive cout := CSkip | COut (o : out) | CReq (r : request) | CAuthz (a : authz) | CCandidate (s : settle).
 
